@@ -206,6 +206,9 @@ def _returns_loaded(ctx, u, f, depth):
                     if p is not None and p.get('kind') not in ('CompoundStmt',):
                         good = False
                         why = 'the result of load_time_zone is used: the fallback-to-UTC value it stored may be replaced'
+            if not good and vid is None and rv is not None and rv.get('kind') == 'CallExpr' and callee(rv) and callee(rv)[0] == 'fn' and \
+                    qn(callee(rv)[1]) == 'cctz::utc_time_zone' and not call_args(rv):
+                good = True         # UTC itself, the value the loader falls back to (an early-out for a name known to be UTC)
             if not good and vid is None and rv is not None and rv.get('kind') == 'CallExpr' and depth < 3 and callee(rv) and \
                     callee(rv)[0] == 'fn':
                 # return H(..): H itself returns what the loader stored on every path
@@ -447,8 +450,15 @@ def run(ctx):
                       '$%s is ignored for some values although it is set (extra condition %s): an empty value must be used as given '
                       '(and then fails over to UTC)' % (envvars[vk], [ft for ft in about if not (ft[0] == '!=' and 'null' in ft[1:])]),
                       construct='env-override:%s' % envvars[vk], detail=str(sorted(about))[:80])
-    ctx.check(n_ov == 2, 'C19-env', '$TZ and $LOCALTIME each override the zone name once', f, 'found %d override assignments' % n_ov,
-              construct='env-override:count')
+    # (a value handed to a file-local helper -- wrapped in a pointer+length record, say -- is not followed)
+    handed_on = False
+    for x in walk(f):
+        if x.get('kind') == 'CallExpr' and callee(x) and callee(x)[0] == 'fn' and callee(x)[1].get('_qn') and \
+                G.resolve_decl(callee(x)[1]) and any(F.keys.key(a_) in envvars for a_ in call_args(x)):
+            handed_on = True
+    ctx.check3(None if (n_ov != 2 and handed_on) else n_ov == 2, 'C19-env', '$TZ and $LOCALTIME each override the zone name once', f,
+               'found %d override assignments' % n_ov, construct='env-override:count',
+               unknown_why='a value read from the environment is handed to a file-local helper: how it becomes the zone name is not followed')
     # one leading ':' of the $TZ value is ignored: every path from the $TZ override to a use of the name (the comparison
     # with "localtime", the name handed to the loader) passes the test of its first character against ':'
     g = ctx.cfg(f)
